@@ -13,7 +13,7 @@ Open Scope string_scope.
    updates / deletes / documents / pipeline arrays) and any index path to a leaf that does not
    pass below a key named like a non-redactable table entry. Then the output holds, at the same
    path, the STRONG verdict for that leaf: a string not starting with '$' is replaced by
-   redactString(s, ph) for one of the five class placeholders ph (or by its pseudonym); a number
+   redactString(s, ph) for one of the five class placeholders ph; a number
    by RedactedNumber when --redactNumbers; a boolean by RedactedBoolean when --redactBooleans. *)
 Theorem C01_absent : forall tb cs c A ins k v p leaf,
   re c = None -> ~ In ("", Exempt) (all_entries tb) ->
@@ -56,14 +56,13 @@ Theorem C01_current_placeholder_mode : forall c ins k v p s,
   jget v p = Some (JStr s) -> starts_with_dollar s = false -> clear current v p = true ->
   exists out, jget (if nss c then ns_member (real_actions current_consts c None) k (cmd_member current current_consts c (real_actions current_consts c None) false ins k v)
                     else cmd_member current current_consts c (real_actions current_consts c None) false ins k v) p = Some (JStr out) /\
-              (In out (placeholders current_consts c) \/ out = Hash.hash_name (repl c) s).
+              In out (placeholders current_consts c).
 Proof.
   intros c ins k v p s Hre Hz Hn Hg Hd Hc.
   destruct (C01_absent current current_consts c (real_actions current_consts c None) ins k v p (JStr s) Hre current_no_empty_exempt Hz Hn Hg I Hc)
     as (d & Hs & Hout).
-  simpl in Hs. destruct Hs as [(ph & -> & Hin) | [-> | [_ Hx]]].
-  - exists ph. split; [exact Hout | now left].
-  - eexists. split; [exact Hout | now right].
+  simpl in Hs. destruct Hs as [(ph & -> & Hin) | [_ Hx]].
+  - exists ph. split; [exact Hout | exact Hin].
   - congruence.
 Qed.
 Print Assumptions C01_current_placeholder_mode.
